@@ -119,7 +119,7 @@ func walChild(args []string) int {
 	in := fs.String("args", "", "json")
 	_ = fs.Parse(args)
 	var a walChildArgs
-	must(json.Unmarshal([]byte(*in), &a))
+	childArgs(*in, &a)
 	if err := runWalOps(a.Cfg, a.Ops, a.Dir, newAckWriter(a.Ack)); err != nil {
 		fmt.Println("ERR", err)
 		return 1
@@ -137,7 +137,7 @@ func walReplayChild(args []string) int {
 	in := fs.String("args", "", "json")
 	_ = fs.Parse(args)
 	var a walReplayArgs
-	must(json.Unmarshal([]byte(*in), &a))
+	childArgs(*in, &a)
 	recs, err := replayDir(a.Cfg, a.Dir)
 	out := map[string]interface{}{"recs": recs}
 	if err != nil {
